@@ -421,7 +421,7 @@ class FaultStream:
 
     def read(self, n=-1):
         self.ncalls += 1
-        rem = len(self.d) - self.pos
+        rem = max(0, len(self.d) - self.pos)     # a seek may have moved the position past the end
         if n is None or n < 0:
             n = rem
         k = min(n, rem)
@@ -440,6 +440,26 @@ class FaultStream:
         out = self.d[self.pos:end]
         self.pos = end
         return out
+
+    # a file object is seekable: position arithmetic as io.BytesIO does it (whence 0/1/2, clamped at 0)
+    def seekable(self):
+        return True
+
+    def readable(self):
+        return True
+
+    def tell(self):
+        return self.pos
+
+    def seek(self, off, whence=0):
+        base = 0 if whence == 0 else self.pos if whence == 1 else len(self.d)
+        new = base + off
+        if new < 0:
+            if whence == 0:
+                raise ValueError(f"negative seek value {off}")
+            new = 0
+        self.pos = new
+        return new
 
 
 import socket as _socket
@@ -1132,6 +1152,17 @@ def replay_options(case):
     budget = 3 * len(data) + 8
     ref_ev, ref_end, _ = drive_reader(io.BytesIO(data), mode, validate=1, parsed=True, labelmsm=label, max_calls=budget)
     ref = [(bytes(e[1]), e[2]) for e in ref_ev if e[0] == 'pair']
+    if case['option'] == 'damaged':
+        fr = case['frames']
+        for nm, val, exp in (("validate=0", 0, [data[a:b] for a, b, dec in fr if dec]),
+                             ("validate=1", 1, [data[a:b] for k, (a, b, dec) in enumerate(fr) if dec and k != case['damaged']])):
+            ev, end, _ = drive_reader(io.BytesIO(data), 2, validate=val, parsed=True, labelmsm=1, max_calls=budget)
+            got = [bytes(e[1]) for e in ev if e[0] == 'pair']
+            if got != exp:
+                failed.append(f"{nm}: returned {[g[:5].hex() for g in got]}, expected {[g[:5].hex() for g in exp]} (frame {case['damaged']} of the stream has a wrong checksum)")
+            elif str(end) != 'stop':
+                failed.append(f"{nm}: iteration ended with {end!r}")
+        return {"reproduced": bool(failed), "failed": failed, "detail": "; ".join(failed)[:400] or "ok"}
     if case['option'] == 'tworeaders':
         from pyrtcm.rtcmreader import RTCMReader
         bad = bytearray(data)
